@@ -64,6 +64,141 @@ CHECKS = {
    design="8/C15",
    note=BASE_NOTE + "Partial: the text round trip is not a theorem yet.",
    technique="Coq proof over an executable model + differential correspondence + oracle (re-parse, packaging)"),
+
+ "C01": dict(
+   text="Coq theorems about the wheel builder's bookkeeping (Model/Wheel.v): in every reachable state the record list is the member list "
+        "with the digest and size of what was written; RECORD lists exactly those members then itself without hash/size; each member once "
+        "iff target paths are distinct; normalize_file_permissions yields 0644/0755 by the owner-execute bit, keeps higher bits, is "
+        "idempotent - proved for the definition re-translated from /repo on every run (translator + agreement lemma). Tie to the code: "
+        "the operation log of real builds (hashes recomputed by the harness) is replayed in the extracted model and its RECORD and modes "
+        "are compared with the archive; the property's own clauses (valid zip, hashes, sizes, paths, modes, name agreement, hook return "
+        "values, prepared dist-info = in-wheel dist-info) are evaluated on 120 generated projects per quick run.",
+   design="8/C01",
+   note=BASE_NOTE + "zipfile, hashlib, csv, the filesystem are runtime (parameters of the model). Partial: name/version agreement and the "
+        "hook API are judged by the oracle only. Known finding D18 (local-version label not normalised) is listed in known_findings.json.",
+   technique="Coq proof of the bookkeeping state machine + translator-checked bit arithmetic + replay of real operation logs + artefact oracle"),
+ "C02": dict(
+   text="Coq theorems: if the marker simplifier keeps truth (premise = C07's statement) the emitted Requires-Dist marker holds exactly when "
+        "the declared markers, python range and platform list hold, and never where one fails; the python condition is the exact reading "
+        "of the range (C11); Provides-Extra normal form is stable. The whole pipeline pyproject -> METADATA is judged on generated "
+        "projects: every Requires-Dist line is parsed by packaging and evaluated on candidate versions and an interpreter/platform/extras "
+        "grid against the declared meaning; Requires-Python and Provides-Extra likewise.",
+   design="8/C02",
+   note=BASE_NOTE + "Partial: composition theorem relative to the level-2 simplifier premise; TOML/schema/Package plumbing unmodelled. "
+        "Known findings D14, D40.",
+   technique="Coq composition proof over the marker/range models + reference evaluation of real METADATA (packaging)"),
+ "C06": dict(
+   text="Coq theorems about the marker model (Model/Marker.v): each kind of leaf evaluates to the specifier semantics validated against "
+        "packaging (>=, <=, ==, and > / < against final literals), literal string comparison / token lists, or membership of the "
+        "normalised extra; compound markers evaluate as the Boolean formula over their leaves. Tie: for ~1500 generated markers per "
+        "quick run the extracted model evaluates the engine's parse tree and the implementation's parsed (simplified) marker structure "
+        "on 40 environments and must agree with validate() and str(); the reference evaluator over packaging's own parse is the oracle.",
+   design="8/C06",
+   note=BASE_NOTE + "The lark grammar is not modelled (the model receives the parse tree). The link leaf text -> leaf constraint "
+        "(SingleMarker.__init__) is tied by correspondence. Known finding D35.",
+   technique="Coq proof over an executable model + differential correspondence + reference evaluator (packaging.markers)"),
+ "C07": dict(
+   text="Coq theorems (level 1): inversion is complementation for atomic markers in both readings and through MultiMarker/MarkerUnion "
+        "(De Morgan), including the constructors' flattening and de-duplication. The simplifier (intersection/union/cnf/dnf/of/"
+        "_merge_single_markers, level 2) is not modelled yet: its results are judged on the implementation by truth tables on the "
+        "environment grid (500 pairs per quick run, per-case cap), and the model evaluates and prints every result structure, which must "
+        "match validate() and str().",
+   design="8/C07",
+   note=BASE_NOTE + "Partial: level 2 unmodelled. Known finding D35 (pinned by the suite).",
+   technique="Coq proof (inversion, constructors) + model evaluation of implementation results + truth-table oracle"),
+ "C08": dict(
+   text="Coq theorems: the sorted member sequence is a function of the set of files (any listing order), normalised modes depend only on "
+        "the owner-execute bit and the bits above the permission bits, every wheel member carries the one timestamp, and that timestamp "
+        "is gmtime(SOURCE_DATE_EPOCH) from 1980 on and the fixed default otherwise (int() parsing modelled and compared with Python). "
+        "Byte identity under every perturbation of the property is judged on real builds of 80 generated projects per quick run.",
+   design="8/C08",
+   note=BASE_NOTE + "deflate/gzip/tar/zip byte layout and the OS are runtime; time.gmtime enters as a parameter with one stated property.",
+   technique="Coq proof (ordering, modes, timestamp choice) + byte comparison of real builds under perturbation"),
+ "C09": dict(
+   text="Coq theorems about the shared selection routine (Model/Select.v): nothing excluded (pattern, VCS, bytecode) is selected unless a "
+        "plain include names that very file; explicit file includes are always selected; an explicit include for the format lifts the "
+        "exclusion. Tie: the extracted model is run on the implementation's own expanded includes and excluded set and must equal "
+        "find_files_to_add for both formats; wheel-from-sdist vs wheel-from-tree bytes, PKG-INFO = METADATA and the include/exclude "
+        "clauses are judged on real archives of 80 generated projects (git work trees included).",
+   design="8/C09",
+   note=BASE_NOTE + "pathlib globbing, git and the filesystem are inputs of the model. Known findings D37, D38, D18.",
+   technique="Coq proof of the selection decisions + correspondence with Builder.find_files_to_add + artefact oracle"),
+ "C10": dict(
+   text="Coq theorems: the re-implemented canonicalize_name is idempotent and insensitive to case, separator choice and separator runs "
+        "(compared with packaging's function on every run). The round trip dependency -> PEP 508 text -> dependency (name, extras, kind, "
+        "URL/reference/subdirectory, constraint on probes, marker on environments) and PEP 508-insignificant rewrites are judged on "
+        "600 generated requirements per quick run against packaging.requirements.",
+   design="8/C10",
+   note=BASE_NOTE + "Partial: the requirement grammar, URL and VCS handling are not modelled (no theorem covers them). Known finding D40.",
+   technique="Coq proof (name normal form) + round-trip oracle against packaging.requirements"),
+ "C11": dict(
+   text="Coq theorems (Model/PyRange.v): the python_version / python_full_version + operator choice of create_nested_marker is exact for "
+        "every interpreter X.Y.Z and every range with final bounds; the single-version branch is refuted for precision < 3 (finding "
+        "D14, witness 3.9 on 3.9.1) and proved for precision 3. Tie: model text = create_nested_marker text on 600 ranges per run; the "
+        "forward direction is evaluated by poetry-core and by the reference on an interpreter grid 2.6-4.1, the backward direction "
+        "(exact / upper bound) on generated markers.",
+   design="8/C11",
+   note=BASE_NOTE + "Partial: marker -> range goes through the level-2 simplifier and is judged by the oracle only. Known finding D14.",
+   technique="Coq proof over an executable model + differential correspondence + reference evaluation"),
+ "C13": dict(
+   text="Coq theorems: evaluation depends on the Boolean structure only, and re-building a conjunction/disjunction from its members "
+        "(what parsing printed text does) keeps the meaning. cnf/dnf are level 2 (unmodelled): every cnf/dnf/intersect/union/invert "
+        "result is checked for truth-table equality, promised shape, and its text is re-parsed by poetry-core and by packaging and "
+        "compared on the environment grid; the model must print the same text byte for byte.",
+   design="8/C13",
+   note=BASE_NOTE + "Partial: no theorem about the normal-form search itself. Known finding D35.",
+   technique="Coq proof (structure, constructors) + text/structure correspondence + re-parse oracle"),
+ "C14": dict(
+   text="Coq theorems (Model/Meta.v): the rendered header lines read back (RFC 822, in the manner of email.feedparser) as exactly the "
+        "intended fields in order, values intact up to leading blanks, multi-line licence as one field, body after the blank line; "
+        "rendering succeeds exactly when no single-line value contains CR/LF - so no value can add, remove or alter another field. "
+        "Tie: the extracted renderer, fed with the Metadata fields the implementation derived, must produce the implementation's text "
+        "byte for byte; email.parser on the real text is the oracle for 250 generated pyprojects per run in both table styles.",
+   design="8/C14",
+   note=BASE_NOTE + "Partial: the mapping pyproject -> fields (schemas, Factory, classifiers) and the splitting of text into lines are "
+        "tied by correspondence/oracle only.",
+   technique="Coq proof (render / RFC 822 read-back) + byte-level correspondence + email.parser oracle"),
+ "C16": dict(
+   text="Coq theorems (Model/Generic.v, all classes modelled): inversion is complementation for clauses and conjunctions in both "
+        "readings; clause x clause and conjunction x clause / conjunction meets and clause joins are exact on the == / != fragment; "
+        "universal/empty flags are exact. The union-level distribution code and allows_all/allows_any are decided by structural "
+        "correspondence (model = implementation on 3000 generated pairs x parse/intersect/union/invert/predicates) and the oracle "
+        "(every alphabet value and every subset of extras as probes).",
+   design="8/C16",
+   note=BASE_NOTE + "Partial: C16_full_statement (coq/Properties/C16.v) is proved for the clause and conjunction level only.",
+   technique="Coq proof over an executable model + structural differential correspondence + exhaustive-probe oracle"),
+ "C17": dict(
+   text="Coq theorems on the unsimplified structure: the projection onto a set of names mentions only those names and holds wherever "
+        "the marker holds. only() additionally re-simplifies, and exclude / reduce_by_python_constraint go through the simplifier "
+        "(level 2): they are judged on the implementation (names, weakening on the environment grid, exactness inside the Python range).",
+   design="8/C17",
+   note=BASE_NOTE + "Partial: the implementation's only()/exclude()/reduce are judged by the oracle; the theorem is about the projection itself.",
+   technique="Coq proof (projection weakens) + truth-table oracle on the implementation"),
+ "C18": dict(
+   text="Coq theorems: version equality is an equivalence, equals key equality (the hashed value), and equal versions are interchangeable "
+        "as constraints and as probes; == on string-constraint clauses is an equivalence implying the same hashed pair and admitted "
+        "values. Ranges, unions, markers, dependencies and specifications: all pairs and triples of spelling pools are checked on the "
+        "implementation (reflexive, symmetric, transitive, hash, interchangeable, re-parse).",
+   design="8/C18",
+   note=BASE_NOTE + "Partial: hash mixing unmodelled; compound types judged by the oracle.",
+   technique="Coq proof (equivalence, key = hash input, interchangeability) + exhaustive pair/triple oracle on pools"),
+ "C19": dict(
+   text="Coq theorems: an accepted version is well-formed; one clause of a version constraint can fail only with ParseConstraintError / "
+        "InvalidVersionError / ValueError; VersionUnion.of on ranges never trips its assertion (the complement used for != is always "
+        "defined). All eight parsers and Factory.validate are fuzzed (token-level + mutation, 2500 inputs + 600 mappings per quick run) "
+        "for undocumented exceptions, hangs and unprintable values; the model must agree on accept/reject, error class and printed value.",
+   design="8/C19",
+   note=BASE_NOTE + "re, lark, fastjsonschema are runtime. Known finding D21s (strict-mode validation).",
+   technique="Coq proof (error sets of the modelled pipelines) + fuzzing with model comparison"),
+ "C20": dict(
+   text="Coq theorems about the two state machines: memoisation keyed by an equality coarser than identity returns values equivalent to "
+        "the undecorated function for every call history, provided equal keys give equivalent results (the premise D23 broke); the "
+        "recursion guard of a thread evolves as in that thread's own sequential run under every interleaving, and balanced use restores "
+        "it. Real workloads (120 calls x 6 per quick run) are executed sequentially, permuted and from 2-16 threads with a 1 us switch "
+        "interval in fresh processes and compared call by call.",
+   design="8/C20",
+   note=BASE_NOTE + "The GIL, dict/list atomicity, functools.cache and lark's thread safety are runtime.",
+   technique="Coq proof of the memo/guard state machines + schedule/history differential oracle in fresh processes"),
 }
 REASON_TODO = "check not built yet (build phase in progress); it will be claimed once its Coq model, theorems and correspondence exist"
 m = {"version": 1,
